@@ -9,9 +9,11 @@ SEMANTIC = [
     ('postcondition not satisfied', 'post'),
     ('precondition not satisfied', 'precondition'),
     ('assertion failed', 'assert'),
+    ('unable to prove post-condition of closure', 'assert'),
     ('invariant not satisfied before loop', 'inv_entry'),
     ('invariant not satisfied at end of loop body', 'inv_preserve'),
     ('loop invariant not preserved', 'inv_preserve'),
+    ('loop invariant not satisfied', 'inv_preserve'),
     ('possible arithmetic underflow/overflow', 'overflow'),
     ('possible division by zero', 'divzero'),
     ('possible bit shift underflow/overflow', 'overflow'),
@@ -112,8 +114,15 @@ def analyse(res, unit):
         elif kind in ('inv_entry', 'inv_preserve'):
             if tag and tag.get('kind') == 'inv':
                 fn, label, okind = tag['fn'], tag['label'], 'inv%d' % tag['loop']
-            elif tag:
-                fn = tag.get('fn')
+            else:
+                # e.g. "loop invariant not satisfied" at a `continue`: the primary span is the statement, the clause is secondary
+                for s2 in sec:
+                    t2 = tags[s2['line_start'] - 1] if s2['line_start'] - 1 < len(tags) else None
+                    if t2 and t2.get('kind') == 'inv':
+                        fn, label, okind = t2['fn'], t2['label'], 'inv%d' % t2['loop']
+                        break
+                if fn is None and tag:
+                    fn = tag.get('fn')
         else:
             # primary span is in the body of the failing function
             if tag:
